@@ -138,7 +138,7 @@ def _validate_record(datum, schema, named_schemas, parent_ns, raise_errors, opti
     _, fullname = schema_name(schema, parent_ns)
     return (
         isinstance(datum, Mapping)
-        and not ("-type" in datum and datum["-type"] != fullname)
+        and not ("-type" in datum and datum["-type"] != schema["name"])
         and all(
             _validate(
                 datum=datum.get(f["name"], f.get("default", NoValue)),
